@@ -24,6 +24,10 @@ def _norm(path: str) -> str:
     return parts[0] + "." + re.sub(r"\[.*?\]", "", parts[1]) if len(parts) > 1 else parts[0]
 
 
+def _structure(net):
+    return [(n, type(m).__name__) for n, m in net.named_modules()]
+
+
 def _setup(case, ctx):
     spec = case["spec"]
     try:
@@ -73,6 +77,14 @@ def check_faithful(ctx, P, C, algo, tag="faithful"):
             ctx.abort("C01/faithful/encoder_output_activation_none_in_parent_set_in_clone",
                       "encoder_config without 'activation': the parent's encoder has output_activation=None, every clone "
                       "gets output_activation=<activation> and computes a different function", algo=algo, diffs=arch_d[:4])
+    # architectures equal by description but different as built (the description no longer describes the network)
+    if not arch_d:
+        fp, fc = T.flat_networks(P), T.flat_networks(C)
+        for k in fp:
+            if k in fc and _structure(fp[k]) != _structure(fc[k]):
+                ctx.abort("C01/faithful/built_modules_differ_though_descriptions_equal",
+                          "parent and clone report the same constructor description but consist of different modules",
+                          algo=algo, network=k, parent=_structure(fp[k])[-6:], clone=_structure(fc[k])[-6:])
     shared = _shared_names(C)
     resync = False
     for d in diffs:
